@@ -121,6 +121,9 @@ func specEqName(a, b Name) bool { return len(a) == len(b) && specEqPrefix(a, b, 
 // specIsPrefix: a is a (not necessarily proper) prefix of b.
 func specIsPrefix(a, b Name) bool { return len(a) <= len(b) && specEqPrefix(a, b, len(a)) }
 
+// SpecIsPrefix: exported for contracts in other packages.
+func SpecIsPrefix(a, b Name) bool { return specIsPrefix(a, b) }
+
 //@ func (Name).Compare
 //@   ensures result == specCmpName(n, rhs)
 //@   loop 1 invariant 0 <= i && specCmpNameFrom(n, rhs, 0) == specCmpNameFrom(n, rhs, i)
@@ -287,7 +290,8 @@ func mapHas[K comparable, V any](m map[K]V, k K) bool { _, ok := m[k]; return ok
 func forall(f any) bool                                { panic("forall: logical quantifier, not executable") }
 
 // wfCompConv: the naming-convention table built by initComponentConventions() (package init) exists and
-// holds complete entries. Global-state invariant, required by the parsers that consult the table.
+// holds complete entries. Global-state invariant (the table is written only by package init): a precondition of the
+// internal parsers, an environment assumption (A-ENV, listed in the evidence) of the exported entry points.
 func wfCompConv() bool {
 	return forall(func(k string) bool {
 		return implies(mapHas(compConvByStr, k), compConvByStr[k] != nil && compConvByStr[k].vFmt != nil)
@@ -320,17 +324,17 @@ func specStrFits(s string) bool { return len(s) <= 281474976710656 }
 //@   modifies ret.Typ, ret.Val
 
 //@ func ComponentFromStr
-//@   requires wfCompConv()
+//@   assume wfCompConv()
 
 //@ func ComponentPatternFromStr
 //@   assume specStrFits(s)
-//@   requires wfCompConv()
+//@   assume wfCompConv()
 
 //@ func NameFromStr
-//@   requires wfCompConv()
+//@   assume wfCompConv()
 
 //@ func NamePatternFromStr
-//@   requires wfCompConv()
+//@   assume wfCompConv()
 
 // ---------------------------------------------------------------------------------------
 // A-HASH: abstract streaming hash (crypto/sha256, HMAC, xxhash are external dependencies).
